@@ -127,6 +127,9 @@ def rule_a2(ctx: Ctx) -> None:
                     if isinstance(st.value, ast.Name) and st.value.id in reduced:
                         reduced.add(tgt.id)
                         continue
+                    if isinstance(st.value, ast.Call) and all(isinstance(a, ast.Name) or not ({n.id for n in ast.walk(a) if isinstance(n, ast.Name)} & (raw | reduced)) for a in st.value.args) \
+                            and not ({n.id for n in ast.walk(st.value.func) if isinstance(n, ast.Name)} & (raw | reduced)):
+                        continue  # the count is handed on as an argument (e.g. self.pattern.rotate(times)); nothing is derived from it here
                     raise AnalysisError(f"{fi.where}: `{unparse(st)}` derives a value from the rotation count in an unrecognised way")
             for node in ast.walk(st):
                 if isinstance(node, (ast.If, ast.IfExp, ast.While)):
